@@ -21,7 +21,7 @@ LEVEL_TEXT = (
     "reached / unreached return statements."
 )
 RULE = (
-    "Deterministic grid over local dims {2,3,4}^2, number of product terms {1,2,3,4,5,9,12}, real/complex, dim given as list / scalar / omitted, tolerance in {default,1e-6,1e-3,1e-1}, party in {1,2}, "
+    "Deterministic grid over local dims {2,3,4}^2, number of product terms {1,2,3,4,5,9,12}, real/complex, dim given as list / scalar / omitted, tolerance in {default,1e-5,1e-3,1e-1}, party in {1,2}, "
     "extension level {1,2} x ppt flag; the seed adds further random instances. SDP-backed cases (3x3 separability beyond the rank shortcuts, level-2 extensions on more than 6 dimensions) cost 5-10 s each and are "
     "sampled sparingly in the quick tier. Non-trivial = at least two product terms or an entangled / mixed state; distinct = distinct (clause, parameters)."
 )
@@ -304,8 +304,8 @@ def _call_sep(p, rho, dims=None, level=None):
         kw["level"] = level
     res, exc, info = traced(is_separable, rho, *args, **kw)
     if exc is not None:
-        try:
-            exc.add_note("is_separable raise site: %s" % info.get("site"))
+        try:  # make the raise site visible in the executor's record (it prints str(exc))
+            exc.args = ("%s [is_separable raised at line %s: %s]" % (exc.args[0] if exc.args else "", info.get("line"), info.get("site")),) + tuple(exc.args[1:])
         except Exception:
             pass
         raise exc
@@ -403,7 +403,7 @@ def _battery():
     out.append(("npt 2x2", _npt_state(2, 2, 2, 0.9, rng)[0], [2, 2]))
     out.append(("npt 3x3", _npt_state(3, 3, 3, 0.9, rng)[0], [3, 3]))
     out.append(("ppt 2x3", _sep_state(2, 3, 4, rng), [2, 3]))
-    for t in (1, 2, 4):
+    for t in (1, 2, 4, 5):
         out.append(("separable 3x3, %d terms" % t, _sep_state(3, 3, t, rng), [3, 3]))
     out.append(("near maximally mixed 3x3", 0.05 * _mixed(9, 9, rng) + 0.95 * np.eye(9) / 9, [3, 3]))
     out.append(("near maximally mixed 4x4", 0.05 * _mixed(16, 16, rng) + 0.95 * np.eye(16) / 16, [4, 4]))
@@ -710,7 +710,7 @@ def cases(tier, seed):
     # ------------------------------------------------------------------ is_ppt / is_npt
     for dA, dB in DIMS:
         d = [dA, dB]
-        for tol in (None, 1e-6, 1e-3, 1e-1):
+        for tol in (None, 1e-5, 1e-3, 1e-1):
             tl = "default" if tol is None else "%g" % tol
             for side in ("inside", "outside"):
                 for sys_ in (1, 2):
@@ -745,8 +745,8 @@ def cases(tier, seed):
                                 continue
                             if dA * dB > 9 and ppt is False:
                                 continue
-                            if dA * dB == 16:
-                                continue
+                            if dA * dB >= 12 and dA * dB != 8 and min(dA, dB) >= 3:
+                                continue  # 3x4, 4x3 (20 s each) and 4x4 are left to the thorough tier
                         if df != "list" and terms != 3:
                             continue
                         q = dict(dims=d, kind="sep", terms=terms, real=False, seed=seed, dimform=df, level=level, ppt=ppt)
